@@ -145,16 +145,16 @@ Qed.
 
 (* ---------------------------------------------------------------- the shape of run_uncommit *)
 
-Definition uncommit_opts : topts := opts CAllow true false false false false.
+Definition uncommit_opts (apc : bool) : topts := opts CAllow apc false false false false.
 
-Lemma run_uncommit_shape : forall w number names w' x,
-    run_uncommit w number names = (w', x) ->
+Lemma run_uncommit_shape : forall lower_s w number names w' x,
+    run_uncommit lower_s w number names = (w', x) ->
     w' = w
     \/ exists op, open_stack PAuto w = Some op
                   /\ (w' = op_world op
-                      \/ exists ps, transact op uncommit_opts (uncommit_patches ps) MOp = (w', x)).
+                      \/ exists ps, transact op (uncommit_opts (w_apc (op_world op))) (uncommit_patches ps) MOp = (w', x)).
 Proof.
-  intros w number names w' x H. unfold run_uncommit in H. cbv zeta in H.
+  intros lower_s w number names w' x H. unfold run_uncommit in H. cbv zeta in H.
   repeat brk_any_in H;
     first [ left; unfold err2 in H; congruence
           | right; eexists; split; [reflexivity|];
@@ -168,11 +168,11 @@ Proof.
 Qed.
 
 Lemma uncommit_keeps_head :
-  forall w number names w' x,
-    run_uncommit w number names = (w', x) ->
+  forall lower_s w number names w' x,
+    run_uncommit lower_s w number names = (w', x) ->
     w_branch w' = w_branch w /\ w_wt w' = w_wt w /\ w_unmerged w' = w_unmerged w.
 Proof.
-  intros w number names w' x H. apply run_uncommit_shape in H.
+  intros lower_s w number names w' x H. apply run_uncommit_shape in H.
   destruct H as [->|[op [Hop H]]]; [repeat split; reflexivity|].
   destruct (open_stack_frame _ _ _ Hop) as [Hb [Hwt Hum]].
   destruct H as [->|[ps H]]; [repeat split; assumption|].
@@ -250,11 +250,11 @@ Proof.
 Qed.
 
 Lemma uncommit_no_new_commit :
-  forall w number names w' x,
-    run_uncommit w number names = (w', x) ->
+  forall lower_s w number names w' x,
+    run_uncommit lower_s w number names = (w', x) ->
     store_extends (w_objs w) (w_objs w') /\ no_new_plain (w_objs w) (w_objs w').
 Proof.
-  intros w number names w' x H. apply np_extends_no_new_plain.
+  intros lower_s w number names w' x H. apply np_extends_no_new_plain.
   apply run_uncommit_shape in H.
   destruct H as [->|[op [Hop H]]]; [apply ext_by_refl|].
   pose proof (open_stack_np _ _ _ Hop) as Hnp.
